@@ -80,11 +80,15 @@ fn build_structure(exec: &Execution, image: &Image) -> BTreeMap<PathBuf, Vec<(us
         match classify(&path) {
             PathClass::Wal | PathClass::Manifest => {
                 let payload = if classify(&path) == PathClass::Wal { "log-payload" } else { "manifest-record" };
+                // the header of the LAST manifest record is named apart: damage there that makes
+                // the record look unfinished cannot be told from a torn final write
+                let last_manifest_write = if classify(&path) == PathClass::Manifest { ws.iter().map(|w| w.0).max() } else { None };
                 for (s, e) in ws {
                     if e - s >= 7 {
+                        let last = last_manifest_write == Some(s);
                         spans.push((s, s + 4, "log-header-checksum"));
-                        spans.push((s + 4, s + 6, "log-header-length"));
-                        spans.push((s + 6, s + 7, "log-header-type"));
+                        spans.push((s + 4, s + 6, if last { "log-header-length-of-last-record" } else { "log-header-length" }));
+                        spans.push((s + 6, s + 7, if last { "log-header-type-of-last-record" } else { "log-header-type" }));
                         spans.push((s + 7, e, payload));
                     } else {
                         spans.push((s, e, "log-trailer-padding"));
@@ -713,7 +717,7 @@ pub fn run_case(tier: &str, seed: u64, idx: u64) -> CaseOut {
         };
         for (n, offset) in (0..len).filter(|o| !wal_family || header_or_sampled(*o).1).enumerate().filter(|(n, o)| if wal_family { (*n as u64) % SLICES == slice } else { (*o as u64) % SLICES == slice }).map(|(n, o)| (n, o)) {
             let _ = n;
-            let all_kinds = thorough || (wal_family && class == PathClass::Wal && header_or_sampled(offset).0);
+            let all_kinds = thorough || structure_at(&base, path, offset).starts_with("log-header");
             let kinds: Vec<u8> = if all_kinds { (0..10).collect() } else { vec![rng.below(8) as u8, 8 + (offset as u8 / 16) % 2] };
             for kind in kinds {
                 let r = rng.below(255) as u8 + 1;
